@@ -25,13 +25,10 @@ inductive Prim : State → State → Prop
   -- start task
   | startExit (s) (h : StartPend s) : Prim s (aStartExit s)
   | startFutQuiet (s) (h : s.st = .closed) : Prim s (aStartFutQuiet s)
-  | startFail (e s) (h : s.st = .closed) (hp : StartPend s) (hf : s.startFut ≠ .pending) (hx : s.startT.exited = true) :
-      Prim s (aStartDone (.err e) s)
+  | startFail (e s) (h : s.st = .closed) (hp : StartPend s) (hf : s.startFut ≠ .pending) (hx : s.startT.exited = true)
+      (ht : s.resolveTimer = false ∧ s.tcpTimer = false) : Prim s (aStartDone (.err e) s)
   | startToSocket (s) (h : s.start = .awaitResolve) : Prim s (aStartToSocket s)
-  | startAttach (s) (h : s.start = .awaitSocket) : Prim s (aStartAttach s)
-  | startFutCb (s) (h : s.start = .awaitSocket) (hx : s.startT.exited = true) : Prim s (aStartFutCb s)
-  | sockOpened (s) (h : s.start = .awaitSocket) (hn : s.st ≠ .closed) (ha : s.sockAttached = true)
-      (hf : s.startFut ≠ .pending) : Prim s (aSockOpened s)
+  | startOk (s) (h : s.start = .awaitSocket) : Prim s (startOkPath s)
   -- finish task
   | finExit (s) (h : FinPend s) : Prim s (aFinExit s)
   | finFutQuiet (s) (h : s.st = .closed) : Prim s (aFinFutQuiet s)
@@ -49,14 +46,11 @@ inductive Prim : State → State → Prop
   | helloStart (s) (h : s.finish = .awaitTransport ∨ s.finish = .awaitReady) (hs : s.st = .hsDone) (hf : s.fhSet = true)
       (ht : s.hsTimer = false) : Prim s (aHelloStart s)
   | helloFinally (s) (h : s.finish = .awaitHello) : Prim s (aHelloFinally s)
-  | keepalive (s) (h : s.finish = .awaitHello) : Prim s (aKeepalive s)
-  | finFutCb (s) (h : s.finish = .awaitHello) (hx : s.finishT.exited = true) : Prim s (aFinFutCb s)
-  | connected (s) (h : s.finish = .awaitHello) (hn : s.st ≠ .closed) (hf : s.finishFut ≠ .pending)
-      (hh : s.hello.timer = false ∧ s.hello.registered = false ∧ s.hello.inWaiters = false) (hp : s.pingArmed = true) :
-      Prim s (aConnected s)
+  | helloOk (s) (h : s.finish = .awaitHello)
+      (hh : s.hello.timer = false ∧ s.hello.registered = false ∧ s.hello.inWaiters = false) : Prim s (helloOkPath s)
   -- disconnect
-  | discDone (s) (h : s.st = .closed) (hr : s.disc = .awaitResp → s.discReq.timer = false ∧ s.discReq.registered = false) :
-      Prim s (aDiscDone s)
+  | discDone (s) (h : s.st = .closed) (hr : s.disc = .awaitResp → s.discReq.timer = false ∧ s.discReq.registered = false)
+      (hw : s.discWaitTimer = false ∨ s.disc = .idle ∨ s.disc = .awaitResp) : Prim s (aDiscDone s)
   | discRaw (s) (h : hsComplete s = true) (hf : s.fhSet = false) : Prim s (aDiscRaw s)
   | forceRaw (s) (h : hsComplete s = true) (hf : s.fhSet = false) : Prim s (aForceRaw s)
   | discReqStart (s) (h : hsComplete s = true) (hd : s.disc = .idle ∨ s.disc = .awaitFinish)
@@ -210,7 +204,9 @@ theorem reach_onLost (s : State) (h : s.lostPending = true) : Reach s (onLost s)
 theorem reach_failStart (s : State) (ex : Exc) (h : StartPend s) : Reach s (failStart s ex) := by
   unfold failStart
   dsimp only
-  refine .snoc (.snoc (.snoc (.one (.startExit s h)) (.cleanup _)) (.startFutQuiet _ rfl)) (.startFail _ _ ?_ ?_ ?_ ?_)
+  refine .snoc (.snoc (.snoc (.one (.startExit s h)) (.cleanup _)) (.startFutQuiet _ rfl)) (.startFail _ _ ?_ ?_ ?_ ?_ ?_)
+  rotate_left 4
+  · simp [aStartFutQuiet, cleanup, aStartExit]
   · simp [aStartFutQuiet, cleanup]
   · simpa [StartPend, aStartFutQuiet, cleanup, aStartExit] using h
   · simp only [aStartFutQuiet, cleanup, aStartExit]
@@ -259,23 +255,7 @@ theorem reach_stepStart (s : State) : Reach s (stepStart s) := by
       · split
         · exact .refl s
         · exact reach_failStart s _ hp
-        · dsimp only
-          have h1 : Reach s (aStartFutCb (aStartAttach s)) :=
-            .snoc (.one (.startAttach s hs)) (.startFutCb _ (by simpa [aStartAttach] using hs) (by simp [aStartAttach]))
-          have hst : (aStartFutCb (aStartAttach s)).start = .awaitSocket := by
-            simp only [aStartFutCb]; split <;> simpa [aStartAttach] using hs
-          have hfut : (aStartFutCb (aStartAttach s)).startFut ≠ .pending := by
-            simp only [aStartFutCb]; split <;> simp_all [aStartAttach]
-          have hex : (aStartFutCb (aStartAttach s)).startT.exited = true := by
-            simp only [aStartFutCb]; split <;> simp [aStartAttach]
-          split
-          · refine .snoc (.snoc h1 (.cleanup _)) (.startFail _ _ rfl ?_ ?_ ?_)
-            · exact Or.inr (by simpa [cleanup] using hst)
-            · simp only [cleanup]; by_cases h2 : (aStartFutCb (aStartAttach s)).startFut = .pending <;> simp [h2]
-            · simpa [cleanup] using hex
-          · rename_i hn
-            refine .snoc h1 (.sockOpened _ hst hn ?_ hfut)
-            simp only [aStartFutCb]; split <;> simp [aStartAttach]
+        · exact .one (.startOk s hs)
   · exact .refl s
 
 theorem reach_sendHello (s : State) (hp : s.finish = .awaitTransport ∨ s.finish = .awaitReady) (hst : s.st = .hsDone)
@@ -351,31 +331,7 @@ theorem reach_stepFinish (s : State) : Reach s (stepFinish s) := by
     · split
       · split
         · exact h1.trans (reach_failFinish _ _ hp1 hh1)
-        · dsimp only
-          have hk : (aKeepalive (aHelloFinally s)).finish = .awaitHello := by simpa [aKeepalive, aHelloFinally] using hs
-          have h2 : Reach s (aFinFutCb (aKeepalive (aHelloFinally s))) :=
-            .snoc (.snoc h1 (.keepalive _ (by simpa [aHelloFinally] using hs))) (.finFutCb _ hk (by simp [aKeepalive]))
-          have hfin : (aFinFutCb (aKeepalive (aHelloFinally s))).finish = .awaitHello := by
-            simp only [aFinFutCb]; split <;> simpa using hk
-          have hfut : (aFinFutCb (aKeepalive (aHelloFinally s))).finishFut ≠ .pending := by
-            simp only [aFinFutCb]; split <;> simp_all
-          have hex : (aFinFutCb (aKeepalive (aHelloFinally s))).finishT.exited = true := by
-            simp only [aFinFutCb]; split <;> simp [aKeepalive]
-          have hhel : (aFinFutCb (aKeepalive (aHelloFinally s))).hello = finishReq s.hello := by
-            simp only [aFinFutCb]; split <;> simp [aKeepalive, aHelloFinally]
-          have hhs : (aFinFutCb (aKeepalive (aHelloFinally s))).hsTimer = s.hsTimer := by
-            simp only [aFinFutCb]; split <;> simp [aKeepalive, aHelloFinally]
-          split
-          · refine .snoc (.snoc h2 (.cleanup _)) (.finFail _ _ rfl ?_ ?_ ?_ ?_ ?_)
-            · exact Or.inr (Or.inr (by simpa [cleanup] using hfin))
-            · simp only [cleanup]; by_cases h3 : (aFinFutCb (aKeepalive (aHelloFinally s))).finishFut = .pending <;> simp [h3]
-            · simpa [cleanup] using hex
-            · exact Or.inr (by simpa [cleanup] using hfin)
-            · intro _; simp [cleanup, hhel, failWaiter, finishReq]
-          · rename_i hn
-            refine .snoc h2 (.connected _ hfin hn hfut ?_ ?_)
-            · simp [hhel, finishReq]
-            · simp only [aFinFutCb]; split <;> simp [aKeepalive]
+        · exact .snoc h1 (.helloOk _ (by simpa [aHelloFinally] using hs) (by simp [aHelloFinally, finishReq]))
       · exact h1.trans (reach_failFinish _ _ hp1 hh1)
       · exact h1.trans (reach_failFinish _ _ hp1 hh1)
       · exact .refl s
@@ -401,7 +357,12 @@ theorem reach_discSend (s : State) (hd : s.disc = .idle ∨ s.disc = .awaitFinis
       rw [heq] at h
       have hdisc : s1.disc = s.disc := by
         rcases send_some_eq _ _ _ heq with ⟨h1, _⟩ | ⟨h1, _⟩ | ⟨h1, _⟩ <;> subst h1 <;> simp [reportFatal, cleanup, aSetFatal]
-      exact .snoc (.snoc h (.cleanup _)) (.discDone _ rfl (hr (cleanup s1) (by simpa [cleanup] using hdisc)))
+      have hwt : s1.discWaitTimer = s.discWaitTimer := by
+        rcases send_some_eq _ _ _ heq with ⟨h1, _⟩ | ⟨h1, _⟩ | ⟨h1, _⟩ <;> subst h1 <;> simp [reportFatal, cleanup, aSetFatal]
+      refine .snoc (.snoc h (.cleanup _)) (.discDone _ rfl (hr (cleanup s1) (by simpa [cleanup] using hdisc)) ?_)
+      rcases hw with hw | hw
+      · left; simpa [cleanup, hwt] using hw
+      · right; left; simpa [cleanup, hdisc] using hw
     · rename_i s1 ex hne heq
       rw [heq] at h
       rcases send_some_eq _ _ _ heq with ⟨h1, h2, _⟩ | ⟨h1, h2, h3, _⟩ | ⟨_, _, _, h4⟩
@@ -413,7 +374,10 @@ theorem reach_discSend (s : State) (hd : s.disc = .idle ∨ s.disc = .awaitFinis
       obtain ⟨h1, h2, _, _⟩ := send_none_eq _ _ heq
       subst h1
       exact .snoc h (.discReqStart _ h2 (by simpa [aWrite] using hd) (by simpa [aWrite] using hw))
-  · exact .snoc (.one (.cleanup s)) (.discDone _ rfl (hr (cleanup s) (by simp [cleanup])))
+  · refine .snoc (.one (.cleanup s)) (.discDone _ rfl (hr (cleanup s) (by simp [cleanup])) ?_)
+    rcases hw with hw | hw
+    · left; simpa [cleanup] using hw
+    · right; left; simpa [cleanup] using hw
 
 theorem reach_stepDisc (s : State) : Reach s (stepDisc s) := by
   unfold stepDisc
@@ -432,8 +396,9 @@ theorem reach_stepDisc (s : State) : Reach s (stepDisc s) := by
     · exact .one (.discCancelledR s hs)
     · split
       · exact .refl s
-      · refine .snoc (.snoc (.one (.discReqFinally s hs)) (.cleanup _)) (.discDone _ rfl ?_)
-        intro _; simp [cleanup, aDiscReqFinally, failWaiter, finishReq]
+      · refine .snoc (.snoc (.one (.discReqFinally s hs)) (.cleanup _)) (.discDone _ rfl ?_ ?_)
+        · intro _; simp [cleanup, aDiscReqFinally, failWaiter, finishReq]
+        · right; right; simpa [cleanup, aDiscReqFinally] using hs
   · exact .refl s
 
 /-- **every transition is a chain of guarded primitive actions** -/
